@@ -9,18 +9,13 @@ pub mod h1 {
    ascent! {
       pub struct Prog;
       relation r0(i64, i64);
-      relation r1(i64);
-      relation r2(i64);
-      relation r3(i64);
-      r2(v0) <-- if let Some(v0) = Some(2), r1(0), if let Some(v1) = Some(v0);
-      r3(2) <-- r2(v0), r0(v0, v0);
-      r2(((*v0) + 1)) <-- r3(v0), if ((*v0) < 6);
-      r2(v0) <-- let v9 = 3, r0(v0, v1), r0(v1, v9);
-      r3(v0) <-- let v9 = 2, r0(v0, v1), r0(v1, v9);
-      r3(3);
-      r2(v0) <-- r1(v0), for v1 in 2..3;
-      r2(v0) <-- let v0 = 2, r2((v0 + 1));
-      r3(v1) <-- if let Some(v0) = Some(0), r0(v0, v0), r0(v0, v0), for v1 in 2..3;
+      relation r1(i64, i64);
+      relation r2(i64, i64);
+      relation r3(i64, i64);
+      r2(v0, v1) <-- for v9 in 0..2, r2(v0, v1), r0(v9, v1);
+      r2(v0, ((*v0) + 1)) <-- r2(v0, v1), if ((*v0) < 6);
+      r2(v0, v1) <-- r2(v0, v1);
+      r2(v2, v0) <-- r1(0, v0) if ((*v0) < 1), r1(v0, v1), r2(v0, v2) if ((*v0) != 3);
    }
    pub struct Inst { p: Prog, pool: Option<ascent::rayon::ThreadPool> }
    pub fn make(pool: Option<usize>) -> Box<dyn Driver> {
@@ -32,9 +27,9 @@ pub mod h1 {
       fn load(&mut self, rel: usize, rows: &[Sexp], append: bool) -> Option<()> {
          match rel {
          0 => { let v: Vec<(i64,i64,)> = parse_rows(rows)?; if append { self.p.r0.extend(v) } else { self.p.r0 = v } },
-         1 => { let v: Vec<(i64,)> = parse_rows(rows)?; if append { self.p.r1.extend(v) } else { self.p.r1 = v } },
-         2 => { let v: Vec<(i64,)> = parse_rows(rows)?; if append { self.p.r2.extend(v) } else { self.p.r2 = v } },
-         3 => { let v: Vec<(i64,)> = parse_rows(rows)?; if append { self.p.r3.extend(v) } else { self.p.r3 = v } },
+         1 => { let v: Vec<(i64,i64,)> = parse_rows(rows)?; if append { self.p.r1.extend(v) } else { self.p.r1 = v } },
+         2 => { let v: Vec<(i64,i64,)> = parse_rows(rows)?; if append { self.p.r2.extend(v) } else { self.p.r2 = v } },
+         3 => { let v: Vec<(i64,i64,)> = parse_rows(rows)?; if append { self.p.r3.extend(v) } else { self.p.r3 = v } },
             _ => return None,
          }
          Some(())
@@ -56,16 +51,17 @@ pub mod h9 {
    ascent! {
       pub struct Prog;
       relation r0(i64, i64);
-      relation r1(i64, i64, i64);
+      relation r1(i64, i64);
       relation r2(i64, i64);
-      relation r3(i64, i64, i64);
-      r3(3, ((*v2) + 1), (v4 + 1)) <-- let v0 = 4, r1(v0, v1, v2) if ((*v2) < 4) let v3 = (v0 + 0), for v4 in 0..1, if ((*v2) < 6), if (v4 < 6);
-      r3(v4, ((*v3) + 1), v3) <-- if let Some(v0) = Some(4), r3(v1, v2, v3), r3(v2, 0, v4), if ((*v3) < 6);
-      r3(v0, v1, v0) <-- r0(v0, v1), r2(v1, v1);
-      r3(v0, v0, ((*v0) + 1)) <-- r1(2, 3, v0), if ((*v0) < 6);
-      r3(v0, v2, ((*v0) + 1)) <-- r1(v0, v1, 3), r2(v2, v1) if ((*v1) <= 5) let v3 = ((*v2) + 1), r0(v4, v5), if ((*v0) < 6), if ((*v0) < 6);
-      r3(((*v3) + 1), v2, v2) <-- for v0 in 0..2, r1(v0, v1, v0), r1(v2, v3, v4), if ((*v3) < 6);
-      r3(2, ((*v1) + 1), v1) <-- r1(v0, 3, v1) if ((*v1) < 6) let v2 = ((*v1) + 1), r0(v3, 0), if ((*v1) < 6);
+      relation r3(i64, i64);
+      relation r4(i64, i64, i64);
+      r3(0, v0) <-- r1(v0, v1);
+      r3(v0, 3) <-- let v0 = 3, r3(v0, v0), r0(v0, v1), if (v0 <= 6);
+      r2(v0, v1) <-- for v9 in 0..3, r1(v0, v1), r0(v9, v1);
+      r4(((*v1) + 1), v0, 2) <-- r3(v0, v1), if ((*v1) == 5), r2(v0, v1) if ((*v1) < 4), r0(((*v1) + 1), v0), if ((*v1) < 6);
+      r3(((*v1) + 1), v1) <-- let v0 = 3, r0(v1, v2), r2(v3, v2), if ((*v1) < 6);
+      r2(3, 0);
+      r3(v0, (v1 + 1)) <-- r0(v0, 0) if ((*v0) != 3), if let Some(v1) = Some((*v0)), if (v1 < 6);
    }
    pub struct Inst { p: Prog, pool: Option<ascent::rayon::ThreadPool> }
    pub fn make(pool: Option<usize>) -> Box<dyn Driver> {
@@ -77,9 +73,10 @@ pub mod h9 {
       fn load(&mut self, rel: usize, rows: &[Sexp], append: bool) -> Option<()> {
          match rel {
          0 => { let v: Vec<(i64,i64,)> = parse_rows(rows)?; if append { self.p.r0.extend(v) } else { self.p.r0 = v } },
-         1 => { let v: Vec<(i64,i64,i64,)> = parse_rows(rows)?; if append { self.p.r1.extend(v) } else { self.p.r1 = v } },
+         1 => { let v: Vec<(i64,i64,)> = parse_rows(rows)?; if append { self.p.r1.extend(v) } else { self.p.r1 = v } },
          2 => { let v: Vec<(i64,i64,)> = parse_rows(rows)?; if append { self.p.r2.extend(v) } else { self.p.r2 = v } },
-         3 => { let v: Vec<(i64,i64,i64,)> = parse_rows(rows)?; if append { self.p.r3.extend(v) } else { self.p.r3 = v } },
+         3 => { let v: Vec<(i64,i64,)> = parse_rows(rows)?; if append { self.p.r3.extend(v) } else { self.p.r3 = v } },
+         4 => { let v: Vec<(i64,i64,i64,)> = parse_rows(rows)?; if append { self.p.r4.extend(v) } else { self.p.r4 = v } },
             _ => return None,
          }
          Some(())
@@ -87,7 +84,7 @@ pub mod h9 {
       fn run(&mut self) { match &self.pool { Some(pl) => { let p = &mut self.p; pl.install(|| p.run()) }, None => self.p.run() } }
       fn run_here(&mut self) { self.p.run() }
       fn run_timeout(&mut self, k: usize) -> Option<bool> { let _ = k; None }
-      fn dump(&self) -> String { vec![dump_rel(0, self.p.r0.iter().map(Row::render).collect()), dump_rel(1, self.p.r1.iter().map(Row::render).collect()), dump_rel(2, self.p.r2.iter().map(Row::render).collect()), dump_rel(3, self.p.r3.iter().map(Row::render).collect())].join(" | ") }
+      fn dump(&self) -> String { vec![dump_rel(0, self.p.r0.iter().map(Row::render).collect()), dump_rel(1, self.p.r1.iter().map(Row::render).collect()), dump_rel(2, self.p.r2.iter().map(Row::render).collect()), dump_rel(3, self.p.r3.iter().map(Row::render).collect()), dump_rel(4, self.p.r4.iter().map(Row::render).collect())].join(" | ") }
       fn iters(&self) -> String { format!("iters {}", self.p.scc_iters.iter().map(|x| x.to_string()).collect::<Vec<_>>().join(" ")) }
    }
 }
@@ -100,17 +97,20 @@ pub mod hp3 {
    use crate::common::*;
    ascent_par! {
       pub struct Prog;
-      relation r0(i64, i64);
-      relation r1(i64, i64);
+      relation r0(i64);
+      relation r1(i64, i64, i64);
       relation r2(i64, i64);
       relation r3(i64, i64);
-      relation r4(i64, i64);
-      r3((v0 + 1), v0) <-- if let Some(v0) = Some(0), r0(v1, v2), if (v0 < 6);
-      r3(v2, v1) <-- r3(v0, v1), r1(v2, v1), let v3 = (*v2);
-      r3(v0, v1) <-- r2(v0, v1), r1(v1, v1);
-      r4(v0, v2) <-- r3(v0, v1), r4(v1, v2), r1(v2, v3);
-      r3(v0, v0) <-- r3(v0, 2);
-      r0(v0, v1) <-- r1(v0, 2), r4(v0, v1);
+      relation r4(i64);
+      relation r5(i64, i64);
+      r2(0, (v0 + 1)) <-- for v0 in 2..4, r0(v0) if (v0 <= 1), if (v0 < 6);
+      r3(v2, 1) <-- for v0 in [0, 0], r2(v1, 1) if (v0 < 3) let v2 = (v0 + 1), r0(v3), if (v2 <= 6);
+      r2(v0, ((*v0) + 1)) <-- r3(v0, 0), if let Some(v1) = Some(((*v0) + 1)), if ((*v0) < 6);
+      r4(v0) <-- r3(v0, v1), r3(v0, v0), r3(v1, v2);
+      r3(v0, (v0 + 1)) <-- let v0 = 3, r4(v0), if (v0 <= 6), if (v0 < 6);
+      r3(1, 3) <-- r4(0);
+      r3(v1, ((*v1) + 1)) <-- r2(v0, v1), r0(3), r3(((*v1) + 1), v2), if ((*v1) < 6);
+      r5(((*v0) + 1), ((*v0) + 1)) <-- r4(2), r4(v0), if ((*v0) < 6), if ((*v0) < 6);
    }
    pub struct Inst { p: Prog, pool: Option<ascent::rayon::ThreadPool> }
    pub fn make(pool: Option<usize>) -> Box<dyn Driver> {
@@ -121,11 +121,12 @@ pub mod hp3 {
    impl Driver for Inst {
       fn load(&mut self, rel: usize, rows: &[Sexp], append: bool) -> Option<()> {
          match rel {
-         0 => { let v: Vec<(i64,i64,)> = parse_rows(rows)?; if !append { self.p.r0 = Default::default(); } for x in v { self.p.r0.push(x); } },
-         1 => { let v: Vec<(i64,i64,)> = parse_rows(rows)?; if !append { self.p.r1 = Default::default(); } for x in v { self.p.r1.push(x); } },
+         0 => { let v: Vec<(i64,)> = parse_rows(rows)?; if !append { self.p.r0 = Default::default(); } for x in v { self.p.r0.push(x); } },
+         1 => { let v: Vec<(i64,i64,i64,)> = parse_rows(rows)?; if !append { self.p.r1 = Default::default(); } for x in v { self.p.r1.push(x); } },
          2 => { let v: Vec<(i64,i64,)> = parse_rows(rows)?; if !append { self.p.r2 = Default::default(); } for x in v { self.p.r2.push(x); } },
          3 => { let v: Vec<(i64,i64,)> = parse_rows(rows)?; if !append { self.p.r3 = Default::default(); } for x in v { self.p.r3.push(x); } },
-         4 => { let v: Vec<(i64,i64,)> = parse_rows(rows)?; if !append { self.p.r4 = Default::default(); } for x in v { self.p.r4.push(x); } },
+         4 => { let v: Vec<(i64,)> = parse_rows(rows)?; if !append { self.p.r4 = Default::default(); } for x in v { self.p.r4.push(x); } },
+         5 => { let v: Vec<(i64,i64,)> = parse_rows(rows)?; if !append { self.p.r5 = Default::default(); } for x in v { self.p.r5.push(x); } },
             _ => return None,
          }
          Some(())
@@ -133,7 +134,7 @@ pub mod hp3 {
       fn run(&mut self) { match &self.pool { Some(pl) => { let p = &mut self.p; pl.install(|| p.run()) }, None => self.p.run() } }
       fn run_here(&mut self) { self.p.run() }
       fn run_timeout(&mut self, k: usize) -> Option<bool> { let _ = k; None }
-      fn dump(&self) -> String { vec![dump_rel(0, self.p.r0.iter().map(|x| x.render()).collect()), dump_rel(1, self.p.r1.iter().map(|x| x.render()).collect()), dump_rel(2, self.p.r2.iter().map(|x| x.render()).collect()), dump_rel(3, self.p.r3.iter().map(|x| x.render()).collect()), dump_rel(4, self.p.r4.iter().map(|x| x.render()).collect())].join(" | ") }
+      fn dump(&self) -> String { vec![dump_rel(0, self.p.r0.iter().map(|x| x.render()).collect()), dump_rel(1, self.p.r1.iter().map(|x| x.render()).collect()), dump_rel(2, self.p.r2.iter().map(|x| x.render()).collect()), dump_rel(3, self.p.r3.iter().map(|x| x.render()).collect()), dump_rel(4, self.p.r4.iter().map(|x| x.render()).collect()), dump_rel(5, self.p.r5.iter().map(|x| x.render()).collect())].join(" | ") }
       fn iters(&self) -> String { format!("iters {}", self.p.scc_iters.iter().map(|x| x.to_string()).collect::<Vec<_>>().join(" ")) }
    }
 }
@@ -149,24 +150,19 @@ pub mod ha2 {
       relation r0(i64, i64);
       relation r1(i64, i64);
       relation r2(i64);
-      relation r3(i64, i64);
-      relation r4(i64, i64);
+      relation r3(i64);
+      relation r4(i64);
       relation r5(i64, i64);
-      relation r6(i64, i64);
-      relation r7(i64, i64);
-      relation r8(i64, i64);
-      relation r9(i64);
-      relation r10(i64);
-      r2(v0) <-- r5(v0, v1), r5(((*v0) + 1), v2);
-      r2(v0) <-- r4(0, 3), if let Some(v0) = Some(0), r5(v0, v1);
-      r3(v0, v0) <-- r0(v0, v1), for v2 in [4];
-      r5(v0, v0) <-- r4(v0, v1) if ((*v0) != 6) let v2 = ((*v1) + 1), r4(v1, 2), if let Some(v3) = Some((*v0));
-      r5(((*v1) + 1), v1) <-- for v0 in 1..2, r4(v0, v1), for v2 in 0..4, if ((*v1) < 6);
-      r6(v1, 1) <-- r5(v0, v1), r2(v1), r1(v32, v33), agg () = not() in r1((*v1), (*v32));
-      r7(v0, v21) <-- r3(v0, v1), r3(v32, v33), agg v21 = max(v20) in r3(v20, _);
-      r8(v1, 2) <-- r1(v0, v1), agg () = not() in r2((*v1));
-      r9(v0) <-- r1(v0, v1), agg () = not() in r5(_, _);
-      r10(v1) <-- r1(v0, v1), r3(v0, v0), agg v21 = max(v20) in r9(v20);
+      r2(v2) <-- r0(v0, v1), if let Some(v2) = Some((*v1)), if (v2 <= 6);
+      r3(v1) <-- r2(v0) if ((*v0) < 2), if ((*v0) != 4), r3(v1);
+      r2(1) <-- r3(v0);
+      r2(v0) <-- let v9 = 2, r1(v0, v1), r1(v1, v9);
+      r3(v0) <-- let v9 = 3, r0(v0, v1), r1(v1, v9);
+      r3(v0) <-- r0(v0, 0), for v1 in 1..1, r0(v1, v1);
+      r3(0) <-- r3(v0);
+      r0(v0, ((*v1) + 1)) <-- if let Some(v0) = Some(3), r3(v1), r1(v0, v2), if (v0 <= 6), if ((*v1) < 6);
+      r4(v0) <-- r0(v0, v1), agg v21 = min(v20) in r1(v20, _);
+      r5(v1, 1) <-- r1(v0, v1), agg () = not() in r0((*v0), (*v0));
    }
    pub struct Inst { p: Prog, pool: Option<ascent::rayon::ThreadPool> }
    pub fn make(pool: Option<usize>) -> Box<dyn Driver> {
@@ -180,14 +176,9 @@ pub mod ha2 {
          0 => { let v: Vec<(i64,i64,)> = parse_rows(rows)?; if append { self.p.r0.extend(v) } else { self.p.r0 = v } },
          1 => { let v: Vec<(i64,i64,)> = parse_rows(rows)?; if append { self.p.r1.extend(v) } else { self.p.r1 = v } },
          2 => { let v: Vec<(i64,)> = parse_rows(rows)?; if append { self.p.r2.extend(v) } else { self.p.r2 = v } },
-         3 => { let v: Vec<(i64,i64,)> = parse_rows(rows)?; if append { self.p.r3.extend(v) } else { self.p.r3 = v } },
-         4 => { let v: Vec<(i64,i64,)> = parse_rows(rows)?; if append { self.p.r4.extend(v) } else { self.p.r4 = v } },
+         3 => { let v: Vec<(i64,)> = parse_rows(rows)?; if append { self.p.r3.extend(v) } else { self.p.r3 = v } },
+         4 => { let v: Vec<(i64,)> = parse_rows(rows)?; if append { self.p.r4.extend(v) } else { self.p.r4 = v } },
          5 => { let v: Vec<(i64,i64,)> = parse_rows(rows)?; if append { self.p.r5.extend(v) } else { self.p.r5 = v } },
-         6 => { let v: Vec<(i64,i64,)> = parse_rows(rows)?; if append { self.p.r6.extend(v) } else { self.p.r6 = v } },
-         7 => { let v: Vec<(i64,i64,)> = parse_rows(rows)?; if append { self.p.r7.extend(v) } else { self.p.r7 = v } },
-         8 => { let v: Vec<(i64,i64,)> = parse_rows(rows)?; if append { self.p.r8.extend(v) } else { self.p.r8 = v } },
-         9 => { let v: Vec<(i64,)> = parse_rows(rows)?; if append { self.p.r9.extend(v) } else { self.p.r9 = v } },
-         10 => { let v: Vec<(i64,)> = parse_rows(rows)?; if append { self.p.r10.extend(v) } else { self.p.r10 = v } },
             _ => return None,
          }
          Some(())
@@ -195,7 +186,7 @@ pub mod ha2 {
       fn run(&mut self) { match &self.pool { Some(pl) => { let p = &mut self.p; pl.install(|| p.run()) }, None => self.p.run() } }
       fn run_here(&mut self) { self.p.run() }
       fn run_timeout(&mut self, k: usize) -> Option<bool> { let _ = k; None }
-      fn dump(&self) -> String { vec![dump_rel(0, self.p.r0.iter().map(Row::render).collect()), dump_rel(1, self.p.r1.iter().map(Row::render).collect()), dump_rel(2, self.p.r2.iter().map(Row::render).collect()), dump_rel(3, self.p.r3.iter().map(Row::render).collect()), dump_rel(4, self.p.r4.iter().map(Row::render).collect()), dump_rel(5, self.p.r5.iter().map(Row::render).collect()), dump_rel(6, self.p.r6.iter().map(Row::render).collect()), dump_rel(7, self.p.r7.iter().map(Row::render).collect()), dump_rel(8, self.p.r8.iter().map(Row::render).collect()), dump_rel(9, self.p.r9.iter().map(Row::render).collect()), dump_rel(10, self.p.r10.iter().map(Row::render).collect())].join(" | ") }
+      fn dump(&self) -> String { vec![dump_rel(0, self.p.r0.iter().map(Row::render).collect()), dump_rel(1, self.p.r1.iter().map(Row::render).collect()), dump_rel(2, self.p.r2.iter().map(Row::render).collect()), dump_rel(3, self.p.r3.iter().map(Row::render).collect()), dump_rel(4, self.p.r4.iter().map(Row::render).collect()), dump_rel(5, self.p.r5.iter().map(Row::render).collect())].join(" | ") }
       fn iters(&self) -> String { format!("iters {}", self.p.scc_iters.iter().map(|x| x.to_string()).collect::<Vec<_>>().join(" ")) }
    }
 }
